@@ -70,7 +70,7 @@ def classify(ctx, c, rc, obs, err, family):
     return False
 
 
-def replay(ctx, objdir, cases, family):
+def replay_cases(ctx, objdir, cases, family):
     ok_cases = [c for c in cases if c["r"] == "ok"]
     err_cases = [c for c in cases if c["r"] == "error"]
     undef = len(cases) - len(ok_cases) - len(err_cases)
@@ -214,7 +214,7 @@ def run(ctx):
     tier = "quick" if quick else "thorough"
     W = 12
     try:
-        n_sim = 1000 if quick else 12000
+        n_sim = 1000 if quick else 4000
         jobs = {"refine": ("MC_Scan_refine_%s.cfg" % tier, {}, {}),
                 "punct": ("MC_Scan_punct_%s.cfg" % tier, {"Devs": lexlib.tla_set(devs)}, {"heap": "4g"}),
                 "lit": ("MC_Scan_lit_%s.cfg" % tier, {"Devs": lexlib.tla_set(devs)}, {"heap": "4g"}),
@@ -248,7 +248,7 @@ def run(ctx):
                 cases = uniq
             if not cases:
                 raise vlib.MachineryError("no VCASE from %s" % jobs[family][0])
-            okc = replay(ctx, hooks, cases, family)
+            okc = replay_cases(ctx, hooks, cases, family)
             audit_clang(ctx, okc, family, 6000 if quick else 60000)
             for c in cases[:: max(1, len(cases) // 2)][:2]:
                 ctx.sample({"text": text_of(c).decode("latin-1"), "Lex": c["r"], "tokens(kind,spelling,space)": c["_e"]})
